@@ -4,16 +4,18 @@ CONSTANTS
   MaxItems = 2
   MaxDepth = 1
   MaxInl = 2
-  MaxNodes = 3
+  MaxNodes = 2
+  MaxAtoms = 2
   AtomPool <- TinyAtoms
   JoinSet <- CoreJoins
   LeafPool <- TinyLeaves
-  Indents = {0, 2}
+  Indents = {0}
   QuoteShapes <- CoreQuotes
   ListShapes <- TinyLists
   AtxShapes <- CoreAtx
   Trails = {TRUE}
   KindWheel <- FlatWheel
+  AtomWheel <- FlatAtomWheel
 INIT Init
 NEXT Next
 INVARIANT TypeOK
